@@ -68,6 +68,12 @@ func (l *RateLimiter) Acquire(ctx context.Context, tokens int) (err error) {
 	now := time.Now().UnixNano()
 	last := atomic.LoadInt64(&l.next)
 	for {
+		if l.timeout > 0 && last > now && time.Duration(last-now) > l.timeout {
+			// the wait would exceed the time-out: refused before anything is taken (a caller
+			// that is turned away must not push the next free instant further out; a burst of
+			// refusals kept the limiter shut for minutes)
+			return core.ErrTimeout
+		}
 		permits := float64(now-last)/l.interval - float64(tokens)
 		if permits > l.maxPermits {
 			permits = l.maxPermits
